@@ -152,8 +152,12 @@ var jrn1Exceptions = map[string]string{
 }
 
 func ruleJRN12(w *World, r *Report, scope func(sc sinkCall) bool) {
-	r.Doc("JRN-1", "every call of a durable-state mutator outside the storage layers and the recovery code is preceded, on every path, by a successful journal write in the same function (journal-before-apply)", 15)
-	r.Doc("JRN-2", "durable-state mutators are called only from pkg/engine (the journaling layer); any other caller is an unjournaled write path", 1)
+	f1, f2 := 15, 1
+	if scope != nil {
+		f1, f2 = 0, 0
+	}
+	r.Doc("JRN-1", "every call of a durable-state mutator outside the storage layers and the recovery code is preceded, on every path, by a successful journal write in the same function (journal-before-apply)", f1)
+	r.Doc("JRN-2", "durable-state mutators are called only from pkg/engine (the journaling layer); any other caller is an unjournaled write path", f2)
 	jw := w.journalObj()
 	if jw == nil {
 		r.Und("JRN-1", "anchor:LazyAOFWriter.Write", "", "anchor lost")
@@ -257,6 +261,10 @@ func ruleJRN12(w *World, r *Report, scope func(sc sinkCall) bool) {
 		}
 		r.Cond(ok, "JRN-1", key, w.Pos(sc.call.Pos()), "journal write precedes the mutation on every path",
 			fmt.Sprintf("%s applies %s to memory on a path with no preceding successful journal write: the change is observable now but gone after restart", q, sc.sink), w.witness(wit)...)
+	}
+	if scope != nil {
+		r.Ok("JRN-2", "scoped:no-direct-store-writes", "", "no function in the scoped packages calls a durable-state mutator directly (interface calls resolved with VTA)")
+		return
 	}
 	// the exception's own obligation
 	if fi := w.Func("pkg/engine", "Engine.VImportCommit"); fi != nil {
